@@ -33,7 +33,7 @@ CHECKS["C18"] = dict(
           "compile-time constants are emitted into the binary and compared with run-time evaluation, the reference, and the hash field parsed "
           "from the table's encoding. distinct = distinct hash of (bytes, keys) / name; non-trivial = non-empty input."),
     floor={"quick": 5000, "thorough": 200000},
-    require_counters=["c18_runtime_cases", "c18_table_names", "c18_method_selectors", "c18_constexpr_literals", "c18_len_gt_255"],
+    require_counters=["c18_runtime_cases", "c18_table_names", "c18_method_selectors", "c18_constexpr_literals", "c18_len_gt_255", "c18_selectors_at_the_edges_of_the_32bit_range", "c18_user_containers_with_narrow_size_types"],
     technique="runtime differential oracle (independent SipHash-2-4) + compile-time-constant emission, under ASan/UBSan",
     level_text="exploration: 10^4-10^6 random (bytes,key) inputs incl. every length 0..1100 and hundreds of generated table/interface/method names are each decided exactly by comparison with an independent SipHash-2-4; compile-time constants are emitted into the binary and compared with run-time evaluation and with the hash field parsed off the wire. The input space is unbounded, so sampling with exact per-case oracles is the reachable level.",
     level_note="trusts the 30-line reference SipHash-2-4 in engines/hash/main.cpp and the compiler's constant evaluation being the one users get",
@@ -51,7 +51,7 @@ CHECKS["C20"] = dict(
           "same conversions compiled in a lean translation unit that includes the library header first (include-order independence), and conversions made during static initialisation by an early-initialised global of another translation unit. Also the conversions compiled in a translation unit built with NDEBUG (release build of a header-only library), and namespace-scope / function-local static const objects initialised with constant arguments (where the compiler may evaluate the conversion itself). distinct = enumerated values (disjoint by construction) + hashed patterns; "
           "non-trivial = byte reversal changes the value."),
     floor={"quick": 100000, "thorough": 1000000},
-    require_counters=["c20_values_checked", "c20_lean_translation_unit_values", "c20_static_initialisation_values", "c20_values_converted_in_an_NDEBUG_translation_unit", "c20_constants_the_compiler_may_fold"],
+    require_counters=["c20_values_checked", "c20_lean_translation_unit_values", "c20_static_initialisation_values", "c20_values_converted_in_an_NDEBUG_translation_unit", "c20_constants_the_compiler_may_fold", "c20_values_through_cv_qualified_types_and_bool"],
     exhaustive_counter="c20_exhaustive_32bit_values",
     technique="runtime value oracle (independent byte reversal), exhaustive sweeps for <= 32 bit in thorough, ASan/UBSan in quick",
     level_text="exploration, exhaustive where feasible: all 8/16-bit values always, all 2^32 bit patterns of int32/uint32/float in the thorough tier, byte-lane/boundary/NaN-payload/random coverage for 64-bit; every value is decided exactly by an independent memcpy byte reversal.",
